@@ -22,7 +22,7 @@ RULE = ('one run = one seeded program on one Connection (plus an observer '
         'or aborted transaction with new objects or >= 2 commits; distinct '
         '= op trace')
 BUDGET = {'quick': {'runs': 12000, 'wall': 300, 'chunk': 25},
-          'thorough': {'runs': 1200000, 'wall': 1800, 'chunk': 200}}
+          'thorough': {'runs': 1200000, 'wall': 1200, 'chunk': 200}}
 ASSUMPTIONS = [
     'the object cache is large enough that no new object saved by a '
     'savepoint is evicted (an evicted one keeps its state only in the '
